@@ -58,6 +58,8 @@ class SeqChannel:
             self.ch.on_frame(spec.Queue.DeclareOk(queue=fr.queue, message_count=0, consumer_count=0))
         elif fr.name == 'Basic.Cancel':
             self.ch.on_frame(spec.Basic.CancelOk(consumer_tag=fr.consumer_tag))
+        elif fr.name == 'Basic.Consume' and getattr(self, 'consume_reply', 'prompt') == 'prompt':
+            self.ch.on_frame(spec.Basic.ConsumeOk(consumer_tag=fr.consumer_tag))
         elif fr.name == 'Channel.CloseOk':
             pass
 
@@ -163,12 +165,35 @@ def seq_guard_history(rep, rng):
     live = list(tags)
     replay = {'kind': 'seq-guard-history', 'consumers': k}
     try:
-        for _ in range(rng.randint(1, k + 1)):
-            if live and rng.random() < 0.7:
+        for step in range(rng.randint(1, k + 1)):
+            what = rng.random()
+            if live and what < 0.6:
                 t = rng.choice(live)
                 live.remove(t)
                 hist.append('cancel:' + t)
                 sc.ch.basic.cancel(t)
+            elif what < 0.75:
+                # another consumer is added, promptly confirmed
+                t = 'n%d' % step
+                sc.consume_reply = 'prompt'
+                sc.ch.basic.consume(lambda m: None, 'q', consumer_tag=t)
+                live.append(t)
+                hist.append('consume:' + t)
+            elif what < 0.9:
+                # a consume whose ConsumeOk comes too late: the call times out, then the broker's confirmation arrives - the
+                # broker does have this consumer, so the channel must list it and get must be refused
+                t = 'late%d' % step
+                sc.consume_reply = 'late'
+                sc.ended = False
+                try:
+                    sc.ch.basic.consume(lambda m: None, 'q', consumer_tag=t)
+                    hist.append('consume-late-returned:' + t)
+                except AMQPChannelError:
+                    hist.append('consume-timed-out:' + t)
+                sc.ch.on_frame(spec.Basic.ConsumeOk(consumer_tag=t))
+                hist.append('late-ConsumeOk:' + t)
+                live.append(t)
+                sc.ended = False
             n0 = len([w for w in sc.written if w[1] == 'Basic.Get'])
             sc.arrivals = [spec.Basic.GetEmpty()]
             sc.eager = 1
